@@ -781,3 +781,38 @@ package rewriter
 //@   ensures[balanced] isa(cursorNode(c), FuncDecl) || isa(cursorNode(c), FuncLit) ==> SLen(yieldFunStack) == old(SLen(yieldFunStack)) - 1
 //@   ensures[depth] !(isa(cursorNode(c), FuncDecl) || isa(cursorNode(c), FuncLit)) ==> SLen(yieldFunStack) == old(SLen(yieldFunStack)) && STop(yieldFunStack) == old(STop(yieldFunStack))
 //@   modifies cell(yieldFunStack), W, AST
+
+// ---------------------------------------------------------------- file-level callbacks: only what they are for is touched (C06, C13)
+
+//@ func (r *rewriter) isIterator(ty) (ok)
+//@   trusted      -- go/types identity with co.Iter modulo type arguments
+//@   ensures ok == IsIterType(ty)
+
+//@ func (r *rewriter) rewriteForRanges(c, pkg) (ok)
+//@   reveal wf-ast
+//@   requires c != nil
+//@   requires isa(cursorNode(c), RangeStmt) ==> !isnil(cursorNode(c))
+//@   ensures[descend] ok
+//@   ensures[only-iterator-ranges] !(isa(cursorNode(c), RangeStmt) && IsIterType(typeOfExpr(as(cursorNode(c), RangeStmt).X))) ==> W == old(W)
+//@   modifies W
+
+//@ func (r *rewriter) rewriteIter(c, pkg) (ok)
+//@   requires c != nil && !(r.seqImportedName == "_")
+//@   requires isa(cursorNode(c), IndexExpr) ==> !isnil(cursorNode(c))
+//@   ensures[descend] ok
+//@   ensures[only-iterator-types] !(isa(cursorNode(c), IndexExpr) && IsIterType(typeOfExpr(as(cursorNode(c), IndexExpr).X))) ==> W == old(W)
+//@   modifies W
+
+//@ func (r *yieldRewriter) rewriteYieldFunc(funTy, body)
+//@   trusted      -- uses defer to reset the per-function context; glue around rewriteYieldFuncResult and the verified rewriteYieldFuncBody
+//@   ensures W == yieldFuncRewritten(funTy, body, old(W))
+//@   modifies W, AST
+
+//@ pred Collected(r *yieldRewriter, n ast.Node) := (isa(n, FuncDecl) && mapTrue(r.rewriter.yieldFuncDecls, n)) || (isa(n, FuncLit) && mapTrue(r.rewriter.yieldFuncLits, n))
+
+//@ func (r *yieldRewriter) rewrite(c, pkg) (ok)
+//@   requires c != nil && r.rewriter != nil
+//@   requires isa(cursorNode(c), FuncDecl) || isa(cursorNode(c), FuncLit) ==> !isnil(cursorNode(c))
+//@   ensures[descend] ok
+//@   ensures[only-collected] !Collected(r, cursorNode(c)) ==> W == old(W)      -- functions that do not yield are not entered
+//@   modifies W, AST
